@@ -4,6 +4,7 @@ package minersc
 
 import (
 	cstate "0chain.net/chaincore/chain/state"
+	"0chain.net/chaincore/transaction"
 )
 
 // VerifStructsReduce forwards to the unexported SimpleNodes.reduce (C39).
@@ -20,4 +21,10 @@ func (dkgmn *DKGMinerNodes) VerifStructsReduceNodes(final bool, gn *GlobalNode, 
 func (msc *MinerSmartContract) VerifStructsReduceShardersList(keep, all *MinerNodes, gn *GlobalNode,
 	balances cstate.StateContextI) ([]*MinerNode, error) {
 	return msc.reduceShardersList(keep, all, gn, balances)
+}
+
+// VerifStructsAddHardFork forwards to the unexported contract function addHardFork (C43).
+func (msc *MinerSmartContract) VerifStructsAddHardFork(txn *transaction.Transaction, input []byte, gn *GlobalNode,
+	balances cstate.StateContextI) (string, error) {
+	return msc.addHardFork(txn, input, gn, balances)
 }
